@@ -583,6 +583,53 @@ fn build_write_script(rng: &mut Rng, w: u64) -> Vec<WStep> {
         s.push(WStep::FlushFile);
         return s;
     }
+    if w % 8 == 4 || w % 16 == 15 {
+        // family E (version 3 for w = 4 mod 8, version 4 for w = 15 mod 16): a regular
+        // chain is released under the sweep (set_len(0), set_len below the cutoff, removal
+        // or truncating re-creation), then two more streams take regular sectors; what
+        // they hold is read back at the end like everything else
+        s.push(WStep::OpenNew { slot: 0, path: "/n0".into() });
+        s.push(WStep::Write { slot: 0, len: 100 });
+        s.push(WStep::CloseHandle { slot: 0 });
+        s.push(WStep::OpenNew { slot: 0, path: "/a".into() });
+        for _ in 0..5 {
+            s.push(WStep::Write { slot: 0, len: 1024 });
+        }
+        s.push(WStep::FlushHandle { slot: 0 });
+        s.push(WStep::CloseHandle { slot: 0 });
+        s.push(WStep::Marker);
+        match (w / 8) % 4 {
+            0 => {
+                s.push(WStep::OpenExisting { slot: 0, path: "/a".into() });
+                s.push(WStep::SetLen { slot: 0, n: 0 });
+                s.push(WStep::FlushHandle { slot: 0 });
+                s.push(WStep::CloseHandle { slot: 0 });
+            }
+            1 => {
+                s.push(WStep::OpenExisting { slot: 0, path: "/a".into() });
+                s.push(WStep::SetLen { slot: 0, n: 600 });
+                s.push(WStep::FlushHandle { slot: 0 });
+                s.push(WStep::CloseHandle { slot: 0 });
+            }
+            2 => s.push(WStep::Remove("/a".into())),
+            _ => {
+                s.push(WStep::OpenNew { slot: 0, path: "/a".into() });
+                s.push(WStep::Write { slot: 0, len: 30 });
+                s.push(WStep::FlushHandle { slot: 0 });
+                s.push(WStep::CloseHandle { slot: 0 });
+            }
+        }
+        for name in ["/b", "/c"] {
+            s.push(WStep::OpenNew { slot: 0, path: name.into() });
+            for _ in 0..5 {
+                s.push(WStep::Write { slot: 0, len: 1024 });
+            }
+            s.push(WStep::FlushHandle { slot: 0 });
+            s.push(WStep::CloseHandle { slot: 0 });
+        }
+        s.push(WStep::FlushFile);
+        return s;
+    }
     if (w / 2) % 2 == 1 && w % 2 == 0 {
         // family B (version 3 files only: a v4 FAT sector costs 1024 underlying writes to
         // initialise, which makes the exhaustive sweep quadratic in the wrong thing): directory-sector and FAT-sector growth, resize across the cutoff in both
